@@ -34,6 +34,10 @@ def run(repo, run, tier):
     first_step_bounded(repo, run, fn)
     clamped_step_bounded(repo, run)
     teval_values_are_integrated(repo, run, fn)
+    # 'no recorded step is longer than max_step' also across rejected steps: the facade clips dt between steps, the integrator must never take more than it was given,
+    # on any retry (each retry clamped to the requested step at the call)
+    from .c05 import retry_step
+    retry_step(repo, run, rule_id="C18.11", strict=True)
 
 
 def construction(repo, run, fn):
